@@ -77,9 +77,47 @@ def run(ctx: common.Ctx) -> None:
                                     "ini_a": "[mypy]\n", "ini_b": f"[mypy]\n[mypy-{section}]\n{name} = {val}\n"},
                            "_dest": name, "_opt": f"[mypy-{section}] {name}={val}", "_w": 0, "_key": True, "_form": "ini-section"}
 
+            def extra_tasks() -> Iterator[dict[str, Any]]:
+                cfg = cfgs[0]
+                # (1) a value moves between two options (the key must distinguish WHICH option holds it)
+                moves = [(["--always-true", "MY_FLAG"], ["--always-false", "MY_FLAG"]),
+                         (["--enable-error-code", "truthy-bool"], ["--disable-error-code", "truthy-bool"]),
+                         (["--enable-error-code", "redundant-expr"], ["--enable-error-code", "possibly-undefined"]),
+                         (["--disable-error-code", "assignment"], ["--disable-error-code", "operator"]),
+                         (["--always-true", "MY_FLAG", "--always-false", "OTHER"], ["--always-true", "OTHER", "--always-false", "MY_FLAG"]),
+                         (["--python-version", "3.10"], ["--python-version", "3.14"]), (["--platform", "win32"], ["--platform", "darwin"]),
+                         (["--follow-imports", "skip"], ["--follow-imports", "silent"]), (["--follow-imports", "error"], ["--follow-imports", "skip"])]
+                for a, b in moves:
+                    yield {"fn": "vlib.tasks.opts:toggle", "args": {"widx": 0, "flags_a": a, "flags_b": b, "config": cfg},
+                           "_dest": "move:" + a[0].lstrip("-") + "->" + b[0].lstrip("-"), "_opt": " ".join(a) + " => " + " ".join(b), "_w": 0, "_key": True, "_form": "move"}
+                # (2) two boolean options of the live table swapped (seeded sample)
+                bools = [f for f in table if f.get("variants") and f["boolean"]]
+                r = common.rng_for("C09", "pairs", ctx.seed)
+                for _ in range(12 if quick else 150):
+                    fa, fb = r.sample(bools, 2)
+                    yield {"fn": "vlib.tasks.opts:toggle", "args": {"widx": 0, "flags_a": fa["variants"][0], "flags_b": fb["variants"][0], "config": cfg},
+                           "_dest": f"pair:{fa['dest']}+{fb['dest']}", "_opt": f"{fa['opt']} => {fb['opt']}", "_w": 0, "_key": True, "_form": "pair"}
+                # (3) import-resolution matrix: global vs per-module ignore_missing_imports x follow_imports, while a search-path
+                #     option makes module b appear / disappear between the runs
+                files = {"main.py": "import b\nx: int = b.v\n", "extra/b.py": "v: str = 's'\nbad: int = ''\n", "other.py": "import main\n"}
+                for g in ("True", "False"):
+                    for pm in (None, "True", "False"):
+                        for fol in ("normal", "skip", "error", "silent"):
+                            for pmfol in (None, "skip"):
+                                sec = "[mypy-b]\n" + (f"ignore_missing_imports = {pm}\n" if pm else "") + (f"follow_imports = {pmfol}\n" if pmfol else "")
+                                head = f"[mypy]\nignore_missing_imports = {g}\nfollow_imports = {fol}\n"
+                                ini_with = head + "mypy_path = extra\n" + (sec if (pm or pmfol) else "")
+                                ini_without = head + (sec if (pm or pmfol) else "")
+                                for a_, b_, d_ in ((ini_with, ini_without, "found->missing"), (ini_without, ini_with, "missing->found")):
+                                    yield {"fn": "vlib.tasks.opts:toggle",
+                                           "args": {"widx": 0, "flags_a": [], "flags_b": [], "config": cfg, "ini_a": a_, "ini_b": b_, "files": files, "targets": ["main.py"]},
+                                           "_dest": f"import-matrix:imi={g}/{pm}:follow={fol}/{pmfol}", "_opt": f"mypy_path {d_} (global imi={g}, [mypy-b] imi={pm}, follow={fol}, [mypy-b] follow={pmfol})",
+                                           "_w": "imp", "_key": True, "_form": "import-matrix"}
+
             witnessed: set[str] = set()
             tried: set[str] = set()
-            for t, r in pool.imap(tasks(), timeout=900):
+            import itertools
+            for t, r in pool.imap(itertools.chain(tasks(), extra_tasks()), timeout=900):
                 dest = t["_dest"]
                 tried.add(dest)
                 if not r.get("ok"):
